@@ -238,16 +238,23 @@ def judge(mol, text, order, spec=''):
                 # (DESIGN §7 #18): compare after kekule() on copies of both sides (H counts do not depend on the Kekule form)
                 if kek is None:
                     try:
-                        k1, k2 = mol.copy(), r.copy()
+                        k1 = mol.copy()
                         k1.kekule()
-                        k2.kekule()
-                        kek = (k1, k2)
-                    except Exception:  # noqa
-                        kek = False
+                    except Exception:  # noqa  the original itself has no Kekule form: its aromatic H counts cannot be judged
+                        kek = 'skip'
+                    else:
+                        try:
+                            k2 = r.copy()
+                            k2.kekule()
+                            kek = (k1, k2)
+                        except Exception:  # noqa
+                            kek = False
+                if kek == 'skip':
+                    continue
                 if kek and kek[0]._atoms[n].implicit_hydrogens == kek[1]._atoms[rn].implicit_hydrogens:
                     continue
                 if kek is False:
-                    diffs.append(f'aromatic-unresolvable@{n}')
+                    diffs.append(f'reread-not-kekulizable@{n}')
                     continue
             diffs.append(f'hcount@{n}:{a.implicit_hydrogens}->{b.implicit_hydrogens}')
     rb = {frozenset((back[x], back[y])): int(bd) for x, y, bd in r.bonds()}
@@ -395,12 +402,21 @@ STEREO_EXTRA = [
 ]
 
 
+RADICAL_EXTRA = ['c1cccc[c]1 |^1:5|', '[c]1ccccc1C |^1:0|', 'c1cc[n]c1 |^1:3|', 'C[N](C)[O] |^1:3|', '[O]O |^1:0|',
+                 '[CH2]c1ccccc1 |^1:0|', 'C[C](C)C |^1:1|', '[NH2] |^1:0|', 'CC(=O)[O] |^1:3|', 'c1cccc[c]1.[CH3] |^1:5,6|',
+                 '[c]1cc[c]cc1 |^1:0,3|', 'Cc1cc[c]cc1.O |^1:4|']
+
+
 def stereo_extra():
     out = []
     for s in STEREO_EXTRA:
         m = molgen.parse(s)
         if m is not None:
             out.append(('stereo:' + s, m))
+    for s in RADICAL_EXTRA:  # radicals that the reader cannot guess from the H count (aromatic) and ones it can
+        m = molgen.parse(s)
+        if m is not None:
+            out.append(('radical:' + s, m))
     return out
 
 
